@@ -78,7 +78,7 @@ class C17(Base):
         ops = []
         for c in range(k):
             if rng.random() < 0.85:
-                ops.append("start:%d:%d:%s" % (c, rng.randint(1, n + 2), rng.choice("vvvsmn")))
+                ops.append("start:%d:%d:%s" % (c, rng.randint(1, n + 2), rng.choice("vvvsmne")))
         rng.shuffle(ops)
         ln = rng.randint(3, maxlen)
         wf = rng.choice([0.15, 0.3, 0.5])
@@ -87,7 +87,7 @@ class C17(Base):
             if r < wf:
                 ops.append("fire")
             elif r < wf + 0.12:
-                ops.append("start:%d:%d:%s" % (rng.randrange(k), rng.randint(1, n + 2), rng.choice("vvvsmn")))
+                ops.append("start:%d:%d:%s" % (rng.randrange(k), rng.randint(1, n + 2), rng.choice("vvvsmne")))
             else:
                 ops.append("poll:%d" % rng.randrange(k))
         if rng.random() < 0.25:
@@ -113,7 +113,7 @@ class C17(Base):
         depth = {}
         for c in range(k):
             depth[c] = rng.randint(1, n + 1)
-            ops.append("start:%d:%d:%s" % (c, depth[c], rng.choice("vvsmn")))
+            ops.append("start:%d:%d:%s" % (c, depth[c], rng.choice("vvsmne")))
         # expected-behaviour simulation (reference executor)
         need = list(needs) + [end]
         cached = 0
@@ -179,7 +179,7 @@ class C17(Base):
             c = rng.randrange(k)
             r = rng.random()
             if r < 0.8:
-                ops.append("start:%d:%d:%s" % (c, rng.randint(1, n + 2), rng.choice("vvsmn")))
+                ops.append("start:%d:%d:%s" % (c, rng.randint(1, n + 2), rng.choice("vvsmne")))
                 if rng.random() < 0.85:
                     ops.append("poll:%d" % c)
             elif r < 0.95:
